@@ -10,5 +10,6 @@ import (
 	_ "verifmc/checks/c15"
 	_ "verifmc/checks/c18"
 	_ "verifmc/checks/optplug"
+	_ "verifmc/checks/pd"
 	_ "verifmc/checks/c20"
 )
